@@ -624,3 +624,48 @@ Proof.
   destruct (compute_checksum ph (be_bytes 2 (i_tc l) ++ [0; 0] ++ payload) IPProtocolICMPv6) eqn:E;
     cbn [snd fst i_tc]; rewrite E; reflexivity.
 Qed.
+
+(* ---------------------------------------------------------------- ICMPv6Echo *)
+
+Lemma echo_decode_no_panic orig old data : is_panic (snd (fst (echo_decode_gen orig old data))) = false.
+Proof.
+  unfold echo_decode_gen. destruct (n6_len data <? 4) eqn:E; [reflexivity|].
+  rewrite (n6_slice_eq data 0 2), (n6_slice_eq data 2 4), (n6_slice_eq data 0 4), (n6_from_eq data 4) by lia. reflexivity.
+Qed.
+
+Lemma echo_decode_fresh old data :
+  let '(l1, r1, t1) := echo_decode_into old data in
+  let '(l2, r2, t2) := echo_decode_into echo_fresh data in
+  r1 = r2 /\ t1 = t2 /\ (r1 = Ok tt -> l1 = l2).
+Proof.
+  unfold echo_decode_into, echo_decode_gen. destruct (n6_len data <? 4) eqn:E. { repeat split. discriminate. }
+  rewrite (n6_slice_eq data 0 2), (n6_slice_eq data 2 4), (n6_slice_eq data 0 4), (n6_from_eq data 4) by lia. repeat split.
+Qed.
+
+Lemma echo_serialize_closed l payload fx cs junk :
+  echo_serialize l payload fx cs junk = (Ok (be_bytes 2 (ec_id l) ++ be_bytes 2 (ec_seq l) ++ payload), l).
+Proof.
+  unfold echo_serialize. pose proof (n6_take_length 4 junk) as HL. set (region := fst (n6_take 4 junk)) in *.
+  do 4 (destruct region as [|? region]; [discriminate HL|]). destruct region; [|discriminate HL]. reflexivity.
+Qed.
+
+Lemma echo_roundtrip l payload junk : echo_okb l = true ->
+  exists bytes, echo_serialize l payload true true junk = (Ok bytes, l) /\
+    echo_decode_into echo_fresh bytes = (mkEcho (ec_id l) (ec_seq l) (firstn 4 bytes) payload, Ok tt, false) /\
+    forall junk', fst (echo_serialize (mkEcho (ec_id l) (ec_seq l) (firstn 4 bytes) payload) payload true true junk') = Ok bytes.
+Proof.
+  unfold echo_okb. intros H. apply andb_prop in H as [H H4]. apply andb_prop in H as [H H3]. apply andb_prop in H as [H1 H2].
+  rewrite echo_serialize_closed. eexists. split; [reflexivity|].
+  remember (be_bytes 2 (ec_id l)) as a. remember (be_bytes 2 (ec_seq l)) as b.
+  assert (La : length a = 2%nat) by (subst; apply be_bytes_length). assert (Lb : length b = 2%nat) by (subst; apply be_bytes_length).
+  assert (Va : be_val a = ec_id l) by (subst; apply be_val_2; lia). assert (Vb : be_val b = ec_seq l) by (subst; apply be_val_2; lia).
+  split.
+  - clear Heqa Heqb. explicit a 2 La. explicit b 2 Lb. cbn [app].
+    set (data := z :: z0 :: z1 :: z2 :: payload). unfold echo_decode_into, echo_decode_gen.
+    assert (HL : n6_len data = 4 + n6_len payload) by (subst data; rewrite !n6_len_cons; lia). pose proof (n6_len_nonneg payload).
+    replace (n6_len data <? 4) with false by lia.
+    rewrite (n6_slice_eq data 0 2), (n6_slice_eq data 2 4), (n6_slice_eq data 0 4), (n6_from_eq data 4) by lia.
+    change (slice data (Z.to_nat 0) (Z.to_nat 2)) with [z; z0]. change (slice data (Z.to_nat 2) (Z.to_nat 4)) with [z1; z2].
+    rewrite Va, Vb. reflexivity.
+  - intros junk'. rewrite echo_serialize_closed. cbn [fst ec_id ec_seq]. subst. reflexivity.
+Qed.
